@@ -554,6 +554,20 @@ func checkConstructorShape(prog *core.Program, r4 *core.RuleRun, c *tplCache) {
 				}
 			}
 		}
+		// every entry of a loaded shard is copied: within the loop over the shard's map nothing skips the store
+		if lp := core.LoopOf(fn, mu); lp != nil {
+			res := core.CountQuery{Fn: fn, StartBlock: lp.Header, Stop: core.IterationStop(lp), Event: func(i ssa.Instruction) int {
+				if i == ssa.Instruction(mu) {
+					return 1
+				}
+				return 0
+			}}.Run()
+			mn, has := res.Min["latch"]
+			r4.Check(has && mn >= 1, name+":copy-every-entry", mu.Pos(), "every iteration over a loaded shard's entries stores its entry",
+				"the loader skips some saved entries (a condition inside the copy loop): templates that were in use before the restart are unknown after it, on a criterion the running cache never applied")
+		} else {
+			r4.Fail(name+":copy-every-entry", mu.Pos(), "the entry store is not inside a loop over the loaded shard")
+		}
 		r4.Check(destOK && srcOK, key, mu.Pos(), "entry copied into a constructed shard from a loaded shard tested non-nil",
 			fmt.Sprintf("loaded templates are merged without the guards that make any file content safe (destination in constructed cache=%v, source shard proven non-nil=%v)", destOK, srcOK))
 	})
